@@ -233,7 +233,7 @@ pub fn check_is_check(p: &Pos, eb: &BoardState, what: &str, origin: &Origin, acc
             Ok(got) => {
                 if got != want {
                     acc.violation(
-                        format!("C06|{}|{:?}", p.placement_fen(), c),
+                        format!("C06|mismatch|{}|{:?}", p.placement_fen(), c),
                         format!("{} ({}): engine says {:?} in check = {}, rules say {}", p.to_fen(), what, c, got, want),
                         json!({"kind": "placement", "property": "C06", "fen": p.to_fen(), "via": origin.case(Prop::C06)}),
                     );
